@@ -103,7 +103,7 @@ def vjp (m : Nat) (J : Nat → Nat → α) (dir : Nat → α) (l : Nat) : α := 
     `direction = prec @ dev`, `grad = gradient_func(direction, par2fun(x))`, then — if the domain
     geometry supplies `gradient` — `grad = geometry.gradient(grad, x)`, i.e. `Gᵀ grad` where
     `G (p × n)` is the Jacobian of `par2fun`.  `dev = data - F(x)`.  -/
-def likGrad (m p n : Nat) (P : Nat → Nat → α) (dev : Nat → α) (J : Nat → Nat → α)
+def likGrad (m p _n : Nat) (P : Nat → Nat → α) (dev : Nat → α) (J : Nat → Nat → α)
     (G : Option (Nat → Nat → α)) (i : Nat) : α :=
   let dir := matVec m P dev
   match G with
